@@ -33,7 +33,7 @@ func TestMain(m *testing.M) {
 		if err != nil {
 			os.Exit(3)
 		}
-		if err := pfs.WriteFile(f, dst, 0o644); err != nil {
+		if err := pfs.WriteFile(f, dst, 0o755); err != nil {
 			fmt.Fprintln(os.Stderr, err)
 			os.Exit(4)
 		}
@@ -48,7 +48,7 @@ var spec = lib.Spec{
 		"either SIGKILL of plz and every process it started 0-150 ms after the n-th command of the build has started (n drawn 0-6, observed through the action log), or under `strace -f -e inject=<syscall>:signal=KILL:when=k` for a drawn metadata syscall " +
 		"(renameat, renameat2, setxattr, lsetxattr, fsetxattr, unlinkat, linkat, symlinkat, mkdirat, openat, write, chmod/fchmodat) and a drawn k (1-40, mostly small; counters are per thread, so k lands on varying operations: exploration, not enumeration). " +
 		"Optionally a second kill follows. Then a normal `plz build` runs. Oracle: it exits 0 and every requested target's outputs equal the Go model of B (a mismatch is confirmed against a real clean build before it is reported). " +
-		"Sub-check (b), exhaustive per case: fs.WriteFile over an existing/absent destination in a single-threaded helper is killed before EVERY mutating syscall it issues (grid of old/new sizes 0..300000 bytes); the destination must hold exactly the old or exactly the new bytes. Non-trivial = the kill hit a running plz (exit by signal) after at least one action of the B build had started, or the strace-injected kill fired; distinct = JSON of the case",
+		"Sub-check (b), exhaustive per case: fs.WriteFile over an existing/absent destination in a single-threaded helper is killed before EVERY mutating syscall it issues (grid of old/new sizes 0..300000 bytes); the destination must hold exactly the old bytes with the old mode or exactly the new bytes with the requested mode. Non-trivial = the kill hit a running plz (exit by signal) after at least one action of the B build had started, or the strace-injected kill fired; distinct = JSON of the case",
 	Assumptions: []string{
 		"crash = SIGKILL of the plz process and of every process it started (no power-loss / page-cache loss semantics)",
 		"kill points of the multi-threaded plz process are sampled, not enumerated",
@@ -125,14 +125,26 @@ func runWF(c WFCase, o *lib.Obs) error {
 			}
 			fired++
 			got, rerr := os.ReadFile(dst)
+			var perm os.FileMode
+			if fi, serr := os.Stat(dst); serr == nil {
+				perm = fi.Mode().Perm()
+			}
 			where := fmt.Sprintf("old=%v(%d bytes) new=%d bytes, killed before %s #%d (%s)", c.HasOld, c.OldSize, c.NewSize, name, k, r.LastCall)
 			switch {
 			case rerr != nil && c.HasOld:
 				return lib.Failf("destination-lost", "%s: destination no longer exists", where)
 			case rerr != nil:
 				// no old file: absent is fine
-			case bytes.Equal(got, newB):
+			case bytes.Equal(got, newB) && !(c.HasOld && bytes.Equal(oldB, newB) && perm == 0o644):
+				// the new content must come with the requested mode (the helper asks for 0755; the old
+				// file is 0644): content and permissions have to change together
+				if perm != 0o755 {
+					return lib.Failf("torn-mode", "%s: destination has the new content but mode %o instead of the requested 755", where, perm)
+				}
 			case c.HasOld && bytes.Equal(got, oldB):
+				if perm != 0o644 {
+					return lib.Failf("torn-mode", "%s: destination has the old content but mode %o instead of its old 644", where, perm)
+				}
 			default:
 				return lib.Failf("torn-write", "%s: destination holds %d bytes that are neither the old nor the new content", where, len(got))
 			}
